@@ -266,7 +266,10 @@ def main(argv=None):
     # bounded drivers: always in thorough tier; in quick tier only for contracts with open obligations
     need = sorted({r.contract for r, o in failing} | {r.contract for r, _ in undecided}
                   | {c.name() for _, c in mine if getattr(c, "always_bounded", False)})
-    bounded_targets = [c.name() for _, c in mine] if tier == "thorough" else need
+    # every bounded run-time contract of the property runs in BOTH tiers (quick: small scope, ~1-30 s per property; thorough:
+    # larger scope): the concrete clause of a driver may say more than the contract proves (CPython cross-check), and a quick
+    # check that skips it is blind there
+    bounded_targets = [c.name() for _, c in mine]
     from pyvc.contract import BOUNDED_ONLY
     bounded_only_names = sorted(BOUNDED_ONLY.get(prop, {}))
     bounded_targets = list(bounded_targets) + [n for n in bounded_only_names if n not in bounded_targets]
